@@ -1,0 +1,1 @@
+//! Verification hooks: asmopt (see mod.rs).
